@@ -996,8 +996,9 @@ impl FromStr for Epoch {
             // This is a valid numerical format.
             // The time scale is what follows the last digit, decimal point or white space (TS trims white spaces).
             let ts_idx = s
-                .rfind(|c: char| c.is_ascii_digit() || c == '.' || c.is_whitespace())
-                .map_or(0, |idx| idx + 1);
+                .char_indices()
+                .rfind(|(_, c)| c.is_ascii_digit() || *c == '.' || c.is_whitespace())
+                .map_or(0, |(idx, c)| idx + c.len_utf8());
             let ts = TimeScale::from_str(&s[ts_idx..]).with_context(|_| ParseSnafu {
                 details: "parsing from string",
             })?;
